@@ -10,12 +10,11 @@ code, and the header as a finite map from canonical names to the values in arriv
 A Go `string` is a byte sequence (`Str`).  The Go library functions the code calls are modelled on
 bytes, exactly for the arguments gws passes:
 
-* `strings.EqualFold(x, t)` with an ASCII `t` (`"13"`, `"websocket"`): `foldEq`.  Besides ASCII case
+* `strings.EqualFold(x, t)` with an ASCII `t` (`"13"`, `"websocket"`, `"Upgrade"`): `foldEq`.  Besides ASCII case
   it accepts, as Go's Unicode simple folding does, U+212A KELVIN SIGN for `k` and U+017F LATIN SMALL
   LETTER LONG S for `s` — the only non-ASCII code points whose folding orbit contains an ASCII letter.
-* `strings.Contains(strings.ToLower(a), "upgrade")`: `httpHeaderContains`, by lower-casing ASCII
-  letters bytewise.  This is exact for this needle because no non-ASCII code point lower-cases to one
-  of `u p g r a d e` (the two that lower-case to ASCII are U+212A -> `k`, U+0130 -> `i`).
+  For the token `Upgrade` (no `k`, no `s`) it is therefore equality up to ASCII letter case
+  (`Hs.foldEq_iff_lower` in Lemmas/Handshake.lean).
 * `strings.TrimSpace`: removes Unicode `White_Space` code points (table `spaceRunes`, as UTF-8) from
   both ends; a byte sequence that is not the valid UTF-8 encoding of one of them stops the trimming.
 * `textproto.CanonicalMIMEHeaderKey`: `canon`.
@@ -45,14 +44,6 @@ def foldEq : Str → Str → Bool
     else if c == 0xE2 && s.take 2 == [0x84, 0xAA] then lowerB t == 107 && foldEq (s.drop 2) ts
     else if c == 0xC5 && s.take 1 == [0xBF] then lowerB t == 115 && foldEq (s.drop 1) ts
     else false
-
-/-- `needle` occurs in the list as a contiguous block (`strings.Contains`) -/
-def hasSub (needle : Str) : Str → Bool
-  | [] => needle.isEmpty
-  | x :: xs => needle.isPrefixOf (x :: xs) || hasSub needle xs
-
-/-- `internal.HttpHeaderContains(a, b)` = `strings.Contains(strings.ToLower(a), strings.ToLower(b))` -/
-def httpHeaderContains (a b : Str) : Bool := hasSub (lower b) (lower a)
 
 /-- `strings.Split(s, sep)` for a one-byte separator: always at least one piece -/
 def consHead (c : UInt8) : List Str → List Str
@@ -93,6 +84,17 @@ def trimSpace (s : Str) : Str := trimRight (trimLeft s)
 /-- `internal.Split(s, ",")`: split, trim every piece, drop the empty ones -/
 def split (s : Str) : List Str := ((splitOn 44 s).map trimSpace).filter (fun v => decide (v ≠ []))
 
+/-- `internal.HttpHeaderContainsToken(lines, token)`: some element of some line equals the token
+under `strings.EqualFold` -/
+def httpHeaderContainsToken (lines : List Str) (token : Str) : Bool :=
+  lines.any (fun line => (split line).any (fun item => foldEq item token))
+
+/-- `strings.Join(l, ",")` -/
+def joinComma : List Str → Str
+  | [] => []
+  | [l] => l
+  | l :: l' :: ls => l ++ 44 :: joinComma (l' :: ls)
+
 /-- `internal.GetIntersectionElem(a, b)`: the first element of `a` that occurs in `b`, `""` if none -/
 def intersectionElem (a b : List Str) : Str :=
   match a.find? (fun x => decide (x ∈ b)) with
@@ -127,8 +129,12 @@ def values (h : Header) (k : Str) : List Str :=
   | some e => e.2
   | none => []
 
+/-- `h.Values(k)`: all the values stored under the canonical form of `k` (one per header line of
+that name, in arrival order) -/
+def vals (h : Header) (k : Str) : List Str := values h (canon k)
+
 /-- `h.Get(k)`: the first value stored under the canonical form of `k`, `""` if there is none -/
-def get (h : Header) (k : Str) : Str := (values h (canon k)).headD []
+def get (h : Header) (k : Str) : Str := (vals h k).headD []
 
 /-- `h.Del(k)` -/
 def del (h : Header) (k : Str) : Header := h.filter (fun e => decide (e.1 ≠ canon k))
@@ -197,7 +203,7 @@ def RW.withExtraHeader (c : RW) (h : Header) : RW :=
 
 def RW.withSubProtocol (c : RW) (requestHeader : Header) (expected : List Str) : RW :=
   if expected ≠ [] then
-    let sp := intersectionElem expected (split (get requestHeader kProtocol))
+    let sp := intersectionElem expected (split (joinComma (vals requestHeader kProtocol)))
     if sp = [] then { c with subprotocol := sp, err := some .subprotocol }
     else { c with subprotocol := sp }.withHeader kProtocol sp
   else c
@@ -223,7 +229,7 @@ def serverDecide (o : ServerOpt) (r : Request) (auth : Bool) (ext : Option Str) 
   if auth = false then .reject .unauthorized else
   if r.method ≠ asc "GET" then .reject .handshake else
   if foldEq (get r.header kVersion) (asc "13") = false then .reject .version else
-  if httpHeaderContains (get r.header kConnection) (asc "Upgrade") = false then .reject .handshake else
+  if httpHeaderContainsToken (vals r.header kConnection) (asc "Upgrade") = false then .reject .handshake else
   if foldEq (get r.header kUpgrade) (asc "websocket") = false then .reject .handshake else
   let rw := RW.init
   let rw := match ext with
@@ -309,7 +315,7 @@ def requestHeader (o : ClientOpt) (key : Str) (ext : Option Str) : Header :=
 
 def checkHeaders (key : Str) (resp : Resp) : Option CErr :=
   if resp.status ≠ 101 then some .status else
-  if httpHeaderContains (get resp.header kConnection) (asc "Upgrade") = false then some .connection else
+  if httpHeaderContainsToken (vals resp.header kConnection) (asc "Upgrade") = false then some .connection else
   if foldEq (get resp.header kUpgrade) (asc "websocket") = false then some .upgrade else
   if get resp.header kAccept ≠ acceptKey key then some .accept else none
 
@@ -351,10 +357,15 @@ def FirstCommon (a b : List Str) (x : Str) : Prop :=
 /-- the canonical forms of the five names `deleteProtectedHeaders` removes -/
 def protectedNames : List Str := [canon kUpgrade, canon kConnection, canon kAccept, canon kExtensions, canon kProtocol]
 
-/-- the *token* reading of "Connection contains upgrade": some comma-separated, trimmed element
-equals `upgrade` up to letter case -/
-def hasToken (v tok : Str) : Prop := ∃ e ∈ split v, foldEq e tok = true
+/-- the header lines carry the token: some comma-separated, trimmed element of some line equals it
+up to ASCII letter case -/
+def HasToken (lines : List Str) (tok : Str) : Prop :=
+  ∃ line ∈ lines, ∃ e ∈ split line, lower e = lower tok
 
-instance (v tok : Str) : Decidable (hasToken v tok) := by unfold hasToken; infer_instance
+instance (lines : List Str) (tok : Str) : Decidable (HasToken lines tok) := by
+  unfold HasToken; infer_instance
+
+/-- everything the header lines list: the comma-separated, trimmed, non-empty elements of all lines -/
+def offered (lines : List Str) : List Str := lines.flatMap split
 
 end Hs
